@@ -16,7 +16,7 @@ QUICK = {'budget_s': 40}
 THOROUGH = {'budget_s': 480}
 EXPECTED_PROBES = ['plug_seen', 'ctor_raised', 'teardown_fault_fired', 'test_start_with_plugs']
 
-PROF = gen.profile(max_nodes=9, max_depth=3, w_phase=10, w_group=3, w_subtest=2, w_branch=1, w_ckpt_fail=0, w_ckpt_diag=0, p_fault_beh=200, p_timeout=60, p_plug=650, plug_faults=600, p_test_start=400, abort=250, abort2=400, sigint=200, p_dur=200, p_profile=100)
+PROF = gen.profile(max_nodes=9, max_depth=3, w_phase=10, w_group=3, w_subtest=2, w_branch=1, w_ckpt_fail=0, w_ckpt_diag=0, p_fault_beh=200, p_timeout=60, p_plug=650, plug_faults=600, p_test_start=400, abort=250, abort2=400, sigint=200, p_dur=200, p_profile=100, n_plug_classes=4, p_share_function=300)
 
 
 def setup():
